@@ -486,6 +486,153 @@ def run_pair(rng, counters, violations, sigs):
     sigs.add(h(("pair", async_variant, tuple(p["kind"] for p in p0), tuple(p["kind"] for p in p1))))
 
 
+WRAPPED_SRC = '''
+import functools
+
+def traced(f):
+    @functools.wraps(f)
+    def wrapper(*args, **kwargs):      # one code object shared by every decorated callback
+        return f(*args, **kwargs)
+    return wrapper
+
+def plugin_a():
+    class Listener:
+        @traced
+        def on_go(self{sig0}):
+            return NOTE(("a", locals()))
+    return Listener()
+
+def plugin_b():
+    class Listener:
+        @traced
+        def on_go(self{sig1}):
+            return NOTE(("b", locals()))
+    return Listener()
+
+class W_{k}(StateMachine):
+    s0 = State(initial=True)
+    s1 = State()
+    go = s0.to(s1)
+    back = s1.to(s0)
+'''
+
+
+def run_wrapped_pair(rng, counters, violations, sigs):
+    """Two listener classes with the same __name__ (two plug-ins) whose same-named callbacks are wrapped
+    by the same functools.wraps decorator (shared code object) but declare different parameters."""
+    from statemachine import State, StateMachine
+
+    k = uid()
+    p0, p1 = gen_signature(rng), gen_signature(rng)
+    notes = []
+    tagger = Tagger()
+    s0, s1 = B.signature_source(p0), B.signature_source(p1)
+    defs = "\n".join(sorted({f"DEF_{p['name']} = 'DEF_{p['name']}'" for p in p0 + p1 if p["default"]}))
+    src = defs + WRAPPED_SRC.format(k=k, sig0=(", " + s0) if s0 else "", sig1=(", " + s1) if s1 else "")
+    ns = {"State": State, "StateMachine": StateMachine, "NOTE": lambda t: notes.append((t[0], {a: tagger.tag(b) for a, b in t[1].items()})),
+          "__name__": f"vmon_c07w_{k}"}
+    exec(compile(src, f"<c07w-{k}>", "exec"), ns)
+    la, lb = ns["plugin_a"](), ns["plugin_b"]()
+    order = [la, lb] if rng.random() < 0.5 else [lb, la]
+    late = rng.random() < 0.4
+    sm = ns[f"W_{k}"](listeners=order[:1] if late else order)
+    if late:
+        sm.add_listener(order[1])
+    tagger.sm, tagger.model = sm, sm.model
+    for _ in range(3):
+        shape = gen_shape(rng, p0 + p1)
+        shape["reserved"] = {}
+        shape["ukw"].pop("key", None)
+        avail = expected_available(shape, "go", "s0", "s1", "on")
+        v0, v1 = B.verdict(p0, shape["args"], avail), B.verdict(p1, shape["args"], avail)
+        del notes[:]
+        try:
+            sm.go(*shape["args"], **shape["ukw"])
+            outcome = "ok"
+        except Exception as err:  # noqa: BLE001
+            outcome = type(err).__name__ + ": " + str(err)[:100]
+        try:
+            if sm.current_state.id == "s1":
+                sm.send("back")
+        except Exception:  # noqa: BLE001
+            pass
+        if v0[0] != "bind" or v1[0] != "bind":
+            continue
+        counters["wrapped_pair_checked"] = counters.get("wrapped_pair_checked", 0) + 1
+        wit = {"source": src, "shape": shape, "late": late}
+        if outcome != "ok":
+            violations.append({"mechanism": "same-named-wrapped-callbacks:" + outcome.split(":")[0], "rule": "C07.own-signature-only",
+                               "detail": outcome, "witness": wit})
+            return
+        got = dict(notes)
+        for tag, params, v in (("a", p0, v0), ("b", p1, v1)):
+            ok, exp, obs = compare(v[1], got.get(tag, {}), params)
+            if not ok:
+                violations.append({"mechanism": "same-named-wrapped-callbacks:binding-differs", "rule": "C07.own-signature-only",
+                                   "detail": f"plugin_{tag}: expected {exp} observed {obs}", "witness": wit})
+                return
+    sigs.add(h(("wrapped", tuple(p["kind"] for p in p0), tuple(p["kind"] for p in p1), late)))
+
+
+def run_partial_pair(rng, counters, violations, sigs, two_machines=False):
+    """The same function used plain by one provider and as a keyword-only functools.partial by another:
+    each must be bound according to its own signature (a partial is not the function it wraps)."""
+    from statemachine import State, StateMachine
+
+    k = uid()
+    notes = []
+    tagger = Tagger()
+
+    def raw(first=None, a=None, *, kk=None, **extra):
+        notes.append({n: tagger.tag(v) for n, v in locals().items() if n in ("first", "a", "kk", "extra")})
+
+    class Holder:
+        pass
+
+    plain, part = Holder(), Holder()
+    plain.on_go = raw
+    part.on_go = functools.partial(raw, first="BOUND")
+    src = "class P(StateMachine): s0=State(initial=True); s1=State(); go=s0.to(s1); back=s1.to(s0)"
+    ns = {"State": State, "StateMachine": StateMachine, "__name__": f"vmon_c07pp_{k}"}
+    exec(compile("class P(StateMachine):\n    s0 = State(initial=True)\n    s1 = State()\n    go = s0.to(s1)\n    back = s1.to(s0)\n", "<c07pp>", "exec"), ns)
+    order = [plain, part] if rng.random() < 0.5 else [part, plain]
+    npos = rng.choice([0, 1, 2, 3])
+    args = [f"P{i}" for i in range(npos)]
+    ukw = {"kk": "U_kk"} if rng.random() < 0.5 else {}
+    try:
+        if two_machines:
+            # two unrelated machine instances, one using the function plain, the other the partial
+            for holder in order:
+                sm = ns["P"](listeners=[holder])
+                sm.go(*args, **ukw)
+        else:
+            sm = ns["P"](listeners=order)
+            sm.go(*args, **ukw)
+        outcome = "ok"
+    except Exception as err:  # noqa: BLE001
+        outcome = type(err).__name__ + ": " + str(err)[:100]
+    counters["partial_pair_checked"] = counters.get("partial_pair_checked", 0) + 1
+    wit = {"source": src + " + listeners with on_go = raw and on_go = functools.partial(raw, first='BOUND')", "order": ["plain" if o is plain else "partial" for o in order]}
+    if outcome != "ok":
+        violations.append({"mechanism": "plain-vs-partial-of-one-function:" + outcome.split(":")[0], "rule": "C07.own-signature-only",
+                           "detail": outcome, "witness": wit})
+        return
+    # expected: plain takes positionals for first / a; the partial has `first` pre-bound, so `a` became
+    # keyword-only and positional arguments cannot reach it
+    exp_plain = {"first": args[0] if npos > 0 else None, "a": args[1] if npos > 1 else None, "kk": ukw.get("kk")}
+    exp_part = {"first": "BOUND", "a": None, "kk": ukw.get("kk")}
+    got_plain = [n for n in notes if n["first"] != "BOUND"]
+    got_part = [n for n in notes if n["first"] == "BOUND"]
+    ok = len(notes) == 2 and len(got_plain) == 1 and len(got_part) == 1 and all(got_plain[0][f] == exp_plain[f] for f in exp_plain) \
+        and all(got_part[0][f] == exp_part[f] for f in exp_part)
+    if not ok:
+        violations.append({"mechanism": "plain-vs-partial-of-one-function:binding-differs", "rule": "C07.own-signature-only",
+                           "detail": f"args={args} ukw={ukw} observed={[{f: n[f] for f in ('first', 'a', 'kk')} for n in notes]} expected plain={exp_plain} partial={exp_part}",
+                           "witness": wit})
+        return
+    sigs.add(h(("partial-pair", npos, bool(ukw), wit["order"][0])))
+
+
 REEXEC_SRC = '''
 class ReM(StateMachine):
     s0 = State(initial=True)
@@ -613,6 +760,10 @@ def run_shard(desc):
             run_pair(rng, counters, violations, sigs)
         if i % 40 == 7:
             run_reexec(rng, counters, violations, sigs)
+        if i % 4 == 2:
+            run_wrapped_pair(rng, counters, violations, sigs)
+        if i % 4 == 3:
+            run_partial_pair(rng, counters, violations, sigs)
     byk = {}
     for v in violations:
         byk.setdefault(v["mechanism"], []).append(v)
